@@ -217,7 +217,8 @@ impl Dictionary for MutableDictionary {
         let normalized = word.normalized();
 
         if let Some(found) = self.word_map.get_with_chars(normalized.as_ref()) {
-            if found.canonical_spelling.as_ref() == normalized.as_ref() {
+            // A word added by a user may itself be spelled with a typographic apostrophe.
+            if found.canonical_spelling.normalized().as_ref() == normalized.as_ref() {
                 return true;
             }
         }
